@@ -59,6 +59,9 @@ def run_case(rng, tier, case):
             case.nontrivial = True
             return
     spec = gen.gen_mixed_portfolio(rng, kinds=KINDS, grid_kw={'steps': (4, 26)}, n_assets=(2, 5), n_nodes=(1, 3))
+    if rng.random() < 0.3:
+        spec, _ = gen.rename_hostile(rng, spec)          # node / asset names that are prefixes of each other, differ in length, end in digits
+        case.feature('hostile_names')
     split = None
     if rng.random() < 0.35 and not spec['grid']['freq'].endswith('d'):
         split = gen.pick(rng, ['d', '12h', '6h', '8h'])
